@@ -86,6 +86,14 @@ class TObj(Ty):
         self.cls = cls
 
 
+class TRef(Ty):
+    """An immutable view of a repository object inside a VC: an element of the uninterpreted sort Ref whose fields
+    are uninterpreted functions (declared in the contract's `ref_fields`), pure methods likewise (`ref_methods`)."""
+
+    def __init__(self, cls: str):
+        self.cls = cls
+
+
 class TSet(Ty):
     """set[T] encoded as (Array T Bool); iteration order unconstrained."""
 
@@ -123,7 +131,7 @@ def sort_of(ty: Ty, decls: smt.Decls) -> str:
     if isinstance(ty, TTup):
         name = "Tup_" + "_".join(smt.mangle(sort_of(t, decls)) for t in ty.items)
         return decls.record(name, [(f"f{i}", sort_of(t, decls)) for i, t in enumerate(ty.items)])
-    if isinstance(ty, TObj):
+    if isinstance(ty, (TObj, TRef)):
         return decls.usort("Ref")
     raise TypeError(f"no SMT sort for {ty}")
 
